@@ -1,4 +1,5 @@
 import PraatModel.Textgrid
+import PraatModel.Lemmas.Tier
 
 /-!
 # C12 — a textgrid is an ordered map of uniquely named tiers; C13 — mutators are all-or-nothing
@@ -635,57 +636,75 @@ theorem addTier_span {g g' : Tg Int} {t : AnyTier Int} {idx : Option Int} {rep :
   · cases g.lo <;> rfl
   · cases g.hi <;> rfl
 
-/-- what one successful step does to the span: nothing, or the hull with one tier's span -/
-theorem step_span {g g' : Tg Int} {op : TgOp} (hnd : g.names.Nodup) (h : step g op = .ok g') :
-    (g'.lo = g.lo ∧ g'.hi = g.hi) ∨
-    ∃ t ∈ g'.tiers, g'.lo = some (widenLo g.lo t.lo) ∧ g'.hi = some (widenHi g.hi t.hi) := by
-  cases op with
-  | add t idx rep =>
+/-- `renameTier` / `replaceTier`, when they succeed, are a removal followed by an `addTier` at some index
+(no hypothesis on the textgrid) -/
+theorem renameTier_inv {g g' : Tg Int} {old new : String} (h : g.renameTier old new = .ok g') :
+    ∃ t' i, (⟨dropName g.tiers old, g.lo, g.hi⟩ : Tg Int).addTier t' (some i) .warning = .ok g' := by
+  unfold Tg.renameTier at h
+  simp only [bind, Except.bind, throw, throwThe, MonadExceptOf.throw, removeTier_eq] at h
+  repeat' split at h
+  all_goals first
+    | (cases h; done)
+    | (rename_i hq _ _ _
+       split at hq
+       · cases hq; exact ⟨_, _, h⟩
+       · cases hq)
+
+theorem replaceTier_inv {g g' : Tg Int} {n : String} {t : AnyTier Int} {rep : Report}
+    (h : g.replaceTier n t rep = .ok g') :
+    ∃ i, (⟨dropName g.tiers n, g.lo, g.hi⟩ : Tg Int).addTier t (some i) rep = .ok g' := by
+  unfold Tg.replaceTier at h
+  simp only [bind, Except.bind, removeTier_eq] at h
+  repeat' split at h
+  all_goals first
+    | (cases h; done)
+    | (rename_i hq
+       split at hq
+       · cases hq; exact ⟨_, h⟩
+       · cases hq)
+
+/-- what one successful step does to the tier list and the span: tiers are only dropped and the span is kept, or
+one tier `t` comes in and the span becomes the hull with `t`'s span -/
+theorem step_shape {g g' : Tg Int} {op : TgOp} (h : step g op = .ok g') :
+    ((∀ u ∈ g'.tiers, u ∈ g.tiers) ∧ g'.lo = g.lo ∧ g'.hi = g.hi) ∨
+    ∃ t ∈ g'.tiers, (∀ u ∈ g'.tiers, u = t ∨ u ∈ g.tiers) ∧
+      g'.lo = some (widenLo g.lo t.lo) ∧ g'.hi = some (widenHi g.hi t.hi) := by
+  have key : ∀ (l : List (AnyTier Int)) (t : AnyTier Int) (idx : Option Int) (rep : Report),
+      (∀ u ∈ l, u ∈ g.tiers) → (⟨l, g.lo, g.hi⟩ : Tg Int).addTier t idx rep = .ok g' →
+      ∃ t ∈ g'.tiers, (∀ u ∈ g'.tiers, u = t ∨ u ∈ g.tiers) ∧
+        g'.lo = some (widenLo g.lo t.lo) ∧ g'.hi = some (widenHi g.hi t.hi) := by
+    intro l t idx rep hl h
     obtain ⟨_, _, rfl⟩ := addTier_inv h
-    refine Or.inr ⟨t, ?_, rfl, rfl⟩
-    cases idx with
-    | none => simp [insAt]
-    | some i => exact (mem_pyListInsert _ _ _ _).2 (Or.inl rfl)
+    have hm : ∀ u, u ∈ insAt l idx t ↔ u = t ∨ u ∈ l := by
+      intro u
+      cases idx with
+      | none => simp [insAt, or_comm]
+      | some i => exact mem_pyListInsert _ _ _ _
+    refine ⟨t, (hm t).2 (Or.inl rfl), ?_, rfl, rfl⟩
+    intro u hu
+    rcases (hm u).1 hu with h | h
+    · exact Or.inl h
+    · exact Or.inr (hl u h)
+  have hdrop : ∀ n, ∀ u ∈ dropName g.tiers n, u ∈ g.tiers := fun n u hu => (List.mem_filter.1 hu).1
+  cases op with
+  | add t idx rep => exact Or.inr (key g.tiers t idx rep (fun _ hu => hu) h)
   | remove n =>
     simp only [step, removeTier_eq] at h
     split at h
-    · cases h; exact Or.inl ⟨rfl, rfl⟩
+    · cases h; exact Or.inl ⟨hdrop n, rfl, rfl⟩
     · cases h
   | rename old new =>
-    simp only [step] at h
-    cases hf : g.tiers.find? (·.name == old) with
-    | none => rw [renameTier_absent g old new (find_none hf)] at h; cases h
-    | some t =>
-      rw [renameTier_eq g old new t hnd hf] at h
-      split at h
-      · cases h
-      · cases hr : t.renew (name := some new) with
-        | error e => rw [hr] at h; cases h
-        | ok t' =>
-          rw [hr] at h
-          cases h
-          refine Or.inr ⟨t', ?_, rfl, rfl⟩
-          refine List.mem_map.2 ⟨t, (find_name hf).1, ?_⟩
-          rw [if_pos (find_name hf).2]
+    obtain ⟨t', i, h⟩ := renameTier_inv h
+    exact Or.inr (key _ t' _ _ (hdrop old) h)
   | replace n t rep =>
-    simp only [step, replaceTier_eq g n t rep hnd] at h
-    split at h
-    · cases h
-    · rename_i hm
-      split at h
-      · cases h
-      · split at h
-        · cases h
-        · cases h
-          refine Or.inr ⟨t, ?_, rfl, rfl⟩
-          obtain ⟨u, hu, hn⟩ := List.mem_map.1 (Classical.not_not.1 hm)
-          refine List.mem_map.2 ⟨u, hu, ?_⟩
-          rw [if_pos hn]
+    obtain ⟨i, h⟩ := replaceTier_inv h
+    exact Or.inr (key _ t _ _ (hdrop n) h)
 
-theorem span_widens {g g' : Tg Int} {op : TgOp} (hnd : g.names.Nodup) (h : step g op = .ok g') :
+/-- (4) the span never shrinks -/
+theorem span_widens {g g' : Tg Int} {op : TgOp} (h : step g op = .ok g') :
     (∀ l, g.lo = some l → ∃ l', g'.lo = some l' ∧ l' ≤ l) ∧
     (∀ hi, g.hi = some hi → ∃ hi', g'.hi = some hi' ∧ hi ≤ hi') := by
-  rcases step_span hnd h with ⟨h1, h2⟩ | ⟨t, _, h1, h2⟩
+  rcases step_shape h with ⟨_, h1, h2⟩ | ⟨t, _, _, h1, h2⟩
   · exact ⟨fun l hl => ⟨l, by rw [h1, hl], Int.le_refl _⟩, fun x hx => ⟨x, by rw [h2, hx], Int.le_refl _⟩⟩
   · exact ⟨fun l hl => ⟨_, h1, (widenLo_le _ _).2 l hl⟩, fun x hx => ⟨_, h2, (le_widenHi _ _).2 x hx⟩⟩
 
@@ -693,78 +712,33 @@ theorem span_widens {g g' : Tg Int} {op : TgOp} (hnd : g.names.Nodup) (h : step 
 def Covered (g : Tg Int) : Prop :=
   ∀ t ∈ g.tiers, (∃ l, g.lo = some l ∧ l ≤ t.lo) ∧ (∃ h, g.hi = some h ∧ t.hi ≤ h)
 
-theorem covered_step {g g' : Tg Int} {op : TgOp} (hnd : g.names.Nodup) (hc : Covered g)
-    (h : step g op = .ok g') : Covered g' := by
-  have hsub : ∀ u ∈ g'.tiers, u ∈ g.tiers ∨
-      (g'.lo = some (widenLo g.lo u.lo) ∧ g'.hi = some (widenHi g.hi u.hi)) := by
-    cases op with
-    | add t idx rep =>
-      obtain ⟨_, _, rfl⟩ := addTier_inv h
-      intro u hu
-      have : u = t ∨ u ∈ g.tiers := by
-        cases idx with
-        | none => simpa [insAt, or_comm] using hu
-        | some i => exact (mem_pyListInsert _ _ _ _).1 hu
-      rcases this with rfl | hu
-      · exact Or.inr ⟨rfl, rfl⟩
-      · exact Or.inl hu
-    | remove n =>
-      simp only [step, removeTier_eq] at h
-      split at h
-      · cases h; intro u hu; exact Or.inl ((List.mem_filter.1 hu).1)
-      · cases h
-    | rename old new =>
-      simp only [step] at h
-      cases hf : g.tiers.find? (·.name == old) with
-      | none => rw [renameTier_absent g old new (find_none hf)] at h; cases h
-      | some t =>
-        rw [renameTier_eq g old new t hnd hf] at h
-        split at h
-        · cases h
-        · cases hr : t.renew (name := some new) with
-          | error e => rw [hr] at h; cases h
-          | ok t' =>
-            rw [hr] at h
-            cases h
-            intro u hu
-            obtain ⟨v, hv, rfl⟩ := List.mem_map.1 hu
-            split
-            · exact Or.inr ⟨rfl, rfl⟩
-            · exact Or.inl hv
-    | replace n t rep =>
-      simp only [step, replaceTier_eq g n t rep hnd] at h
-      split at h
-      · cases h
-      · split at h
-        · cases h
-        · split at h
-          · cases h
-          · cases h
-            intro u hu
-            obtain ⟨v, hv, rfl⟩ := List.mem_map.1 hu
-            split
-            · exact Or.inr ⟨rfl, rfl⟩
-            · exact Or.inl hv
-  obtain ⟨w1, w2⟩ := span_widens hnd h
-  intro u hu
-  rcases hsub u hu with hm | ⟨e1, e2⟩
-  · obtain ⟨⟨l, hl, hl'⟩, ⟨x, hx, hx'⟩⟩ := hc u hm
+/-- … and it always covers every tier -/
+theorem covered_step {g g' : Tg Int} {op : TgOp} (hc : Covered g) (h : step g op = .ok g') : Covered g' := by
+  have old : ∀ u ∈ g.tiers, (∃ l, g'.lo = some l ∧ l ≤ u.lo) ∧ (∃ x, g'.hi = some x ∧ u.hi ≤ x) := by
+    obtain ⟨w1, w2⟩ := span_widens h
+    intro u hm
+    obtain ⟨⟨l, hl, hl'⟩, ⟨x, hx, hx'⟩⟩ := hc u hm
     obtain ⟨l', e1, e2⟩ := w1 l hl
     obtain ⟨x', e3, e4⟩ := w2 x hx
     exact ⟨⟨l', e1, by omega⟩, ⟨x', e3, by omega⟩⟩
-  · exact ⟨⟨_, e1, (widenLo_le _ _).1⟩, ⟨_, e2, (le_widenHi _ _).1⟩⟩
+  rcases step_shape h with ⟨hs, _, _⟩ | ⟨t, _, hs, e1, e2⟩
+  · intro u hu; exact old u (hs u hu)
+  · intro u hu
+    rcases hs u hu with rfl | hm
+    · exact ⟨⟨_, e1, (widenLo_le _ _).1⟩, ⟨_, e2, (le_widenHi _ _).1⟩⟩
+    · exact old u hm
 
 theorem covered_run (ops : List TgOp) : Covered (run ⟨[], none, none⟩ ops) := by
-  suffices ∀ g : Tg Int, g.names.Nodup → Covered g → Covered (run g ops) from
-    this _ (by simp [Tg.names]) (by intro t ht; cases ht)
+  suffices ∀ g : Tg Int, Covered g → Covered (run g ops) from
+    this _ (by intro t ht; cases ht)
   induction ops with
-  | nil => intro g _ hc; exact hc
+  | nil => intro g hc; exact hc
   | cons op ops ih =>
-    intro g hnd hc
+    intro g hc
     simp only [run]
     cases h : step g op with
-    | error e => exact ih g hnd hc
-    | ok g' => exact ih g' (names_nodup_step hnd h) (covered_step hnd hc h)
+    | error e => exact ih g hc
+    | ok g' => exact ih g' (covered_step hc h)
 
 /-! ### (5) remove, rename, replace by position -/
 
@@ -1453,5 +1427,119 @@ theorem mergeTiers_spec {g g' : Tg Int} {sel : Option (List String)} {preserve :
       have h : (some <$> rest.foldlM (fun acc t => acc.union t) f) >>= _ = .ok g' := h
       obtain ⟨pt, hp, h⟩ := bind_ok h
       exact ⟨it, pt, hi, hp, by cases preserve <;> cases it <;> cases pt <;> exact h⟩
+
+/-! ### renaming a well-formed tier: the re-validation hypothesis of `renameTier_spec` discharged -/
+
+def AnyWF : AnyTier Int → Prop
+  | .I t => t.WF
+  | .P t => t.WF
+
+/-- the same tier under another name -/
+def setName (t : AnyTier Int) (n : String) : AnyTier Int :=
+  match t with
+  | .I t => .I { t with name := n }
+  | .P t => .P { t with name := n }
+
+/-- `tier.new(name=n)` on a well-formed tier changes the name and nothing else -/
+theorem renew_of_wf {t : AnyTier Int} (h : AnyWF t) (n : String) :
+    t.renew (name := some n) = .ok (setName t n) := by
+  cases t with
+  | I t =>
+    have h : t.WF := h
+    have : t.new (name := some n) = .ok { t with name := n } := by
+      unfold ITier.new
+      simp only [Option.getD_none, Option.getD_some]
+      rw [mkITier_of_wf n t.es t.lo t.hi h.pos h.disj h.stripped]
+      rw [hullMin_eq_of_le _ _ (by intro x hx; obtain ⟨iv, hiv, rfl⟩ := List.mem_map.1 hx; exact h.inLo iv hiv)]
+      rw [hullMax_eq_of_ge _ _ (by intro x hx; obtain ⟨iv, hiv, rfl⟩ := List.mem_map.1 hx; exact h.inHi iv hiv)]
+    simp only [AnyTier.renew, this]; rfl
+  | P t =>
+    have h : t.WF := h
+    have : t.new (name := some n) = .ok { t with name := n } := by
+      unfold PTier.new
+      simp only [Option.getD_none, Option.getD_some]
+      obtain ⟨t', e, _, e1, e2, e3, e4⟩ := mkPTier_wf n t.ps t.lo t.hi h.sorted h.stripped h.inLo h.inHi h.span
+      rw [e]
+      obtain ⟨n', ps', lo', hi'⟩ := t'
+      simp only at e1 e2 e3 e4
+      subst e1 e2 e3 e4
+      rfl
+    simp only [AnyTier.renew, this]; rfl
+
+theorem setName_span (t : AnyTier Int) (n : String) : (setName t n).lo = t.lo ∧ (setName t n).hi = t.hi := by
+  cases t <;> exact ⟨rfl, rfl⟩
+
+/-- renaming a well-formed tier inside a textgrid whose span covers its tiers: only the name at that position changes -/
+theorem renameTier_wf (g : Tg Int) (old new : String) (k : Nat) (t : AnyTier Int)
+    (hnd : g.names.Nodup) (hcov : Covered g) (hk : g.indexOf old = some k) (ht : g.tiers[k]? = some t)
+    (hwf : AnyWF t) (hc : ¬ (new ≠ old ∧ new ∈ g.names)) :
+    g.renameTier old new = .ok ⟨g.tiers.set k (setName t new), g.lo, g.hi⟩ := by
+  have hold : old ∈ g.names := (idxOf_isSome_iff _ _).1 ⟨k, hk⟩
+  obtain ⟨g', e, e1, _, _, _, e2, e3⟩ :=
+    (renameTier_spec g old new hnd hold).2 k t (setName t new) hk ht hc (renew_of_wf hwf new)
+  obtain ⟨⟨l, hl, hl'⟩, ⟨x, hx, hx'⟩⟩ := hcov t (List.mem_of_getElem? ht)
+  rw [e]
+  obtain ⟨ts, lo, hi⟩ := g'
+  simp only at e1 e2 e3
+  rw [(setName_span t new).1, hl] at e2
+  rw [(setName_span t new).2, hx] at e3
+  have m1 : widenLo (some l) t.lo = l := by simp only [widenLo]; omega
+  have m2 : widenHi (some x) t.hi = x := by simp only [widenHi]; omega
+  rw [m1] at e2; rw [m2] at e3
+  rw [e1, e2, e3, hl, hx]
+
+/-! ## a concrete run (non-vacuity) -/
+
+def tA : AnyTier Int := .I ⟨"a", [⟨0, 5, "x"⟩], 0, 10⟩
+def tB : AnyTier Int := .P ⟨"b", [⟨3, "p"⟩], 0, 10⟩
+def tC : AnyTier Int := .I ⟨"c", [⟨2, 4, "y"⟩, ⟨6, 12, "z"⟩], 0, 12⟩
+def tA' : AnyTier Int := .P ⟨"a", [⟨1, "q"⟩, ⟨9, "r"⟩], 0, 10⟩
+def tE : AnyTier Int := .I ⟨"e", [], -3, 8⟩
+
+def demoOps : List TgOp :=
+  [ .add tA none .warning,          -- [a]           span 0..10
+    .add tB (some (-7)) .warning,   -- [b, a]        index far below -len: front
+    .add tC (some 99) .error,       -- rejected: the span would grow and "error" was requested
+    .add tC (some 99) .warning,     -- [b, a, c]     index beyond the end: back; span 0..12
+    .add tA none .warning,          -- rejected: duplicate name
+    .rename "a" "d",                -- [b, d, c]
+    .rename "b" "c",                -- rejected: clash
+    .remove "zz",                   -- rejected: no such tier
+    .replace "b" tA' .warning,      -- [a, d, c]     a new tier under a free name at the position of "b"
+    .add tE (some (-1)) .warning,   -- [a, d, e, c]  index -1: before the last; span -3..12
+    .rename "e" "e",                -- [a, d, e, c]  renaming to itself is allowed
+    .replace "d" tC .silence,       -- rejected: "c" is another tier's name
+    .remove "d" ]                   -- [a, e, c]
+
+def errOf {β} : Except Err β → Option Err
+  | .ok _ => none
+  | .error e => some e
+
+def empty : Tg Int := ⟨[], none, none⟩
+
+#guard (run empty demoOps).names = ["a", "e", "c"]
+#guard ((run empty demoOps).lo, (run empty demoOps).hi) = (some (-3), some 12)
+#guard (run empty (demoOps.take 2)).names = ["b", "a"]
+#guard (run empty (demoOps.take 4)).names = ["b", "a", "c"]
+#guard (run empty (demoOps.take 6)).names = ["b", "d", "c"]
+#guard (run empty (demoOps.take 9)).names = ["a", "d", "c"]
+#guard (run empty (demoOps.take 10)).names = ["a", "d", "e", "c"]
+#guard (run empty (demoOps.take 10)).tiers.map (·.isInterval) = [false, true, true, true]
+#guard errOf (step (run empty (demoOps.take 2)) (.add tC (some 99) .error)) = some .TextgridStateAutoModified
+#guard errOf (step (run empty (demoOps.take 4)) (.add tA none .warning)) = some .TierNameExistsError
+#guard errOf (step (run empty (demoOps.take 6)) (.rename "b" "c")) = some .TierNameExistsError
+#guard errOf (step (run empty (demoOps.take 6)) (.remove "zz")) = some .KeyError
+#guard errOf (step (run empty (demoOps.take 6)) (.rename "zz" "y")) = some .KeyError
+#guard errOf (step (run empty (demoOps.take 6)) (.replace "zz" tA .warning)) = some .ValueError
+#guard errOf (step (run empty (demoOps.take 11)) (.replace "d" tC .silence)) = some .TierNameExistsError
+-- the specification computes the same thing
+#guard (specRun ⟨[], none, none⟩ demoOps).names = ["a", "e", "c"]
+#guard ((specRun ⟨[], none, none⟩ demoOps).lo, (specRun ⟨[], none, none⟩ demoOps).hi) = (some (-3), some 12)
+-- textgrid-level operations keep the names
+#guard ((run empty demoOps).crop 1 7 .truncated false).toOption.map (·.names) = some ["a", "e", "c"]
+#guard ((run empty demoOps).eraseRegion 1 3 true).toOption.map (·.names) = some ["a", "e", "c"]
+#guard ((run empty demoOps).insertSpace 2 5 .stretch).toOption.map (·.names) = some ["a", "e", "c"]
+#guard ((run empty demoOps).editTimestamps 4 .warning).toOption.map (·.names) = some ["a", "e", "c"]
+#guard ((run empty (demoOps.take 4)).mergeTiers none true).toOption.map (·.names) = some ["a", "b"]
 
 end C12
